@@ -15,7 +15,8 @@ import TracklibVerif.Model.SeqOps
   `Model/Simplify.lean` **on that column of the feature rows** (`Operator.ARGMIN` reads it through
   `getObsAnalyticalFeature`, `removeObs` is C04's `removeObsList([id])`, `TV.Seq.removeObs`), and finally
   deletes the column with `removeAnalyticalFeature` (larger column indices shifted down);
-* `simplify` dispatches on `mode`.
+* `simplify` dispatches on `mode`; `Network.simplify` (`netSimplify`) and `TrackCollection.simplify` (`collSimplify`, 039f340)
+  call it on every edge geometry / on a copy of every track.
 
 Feature rows are assumed as long as the dict says (the invariant of C01); a write outside a row (Python:
 `IndexError`) is a no-op of `List.set` here. Core Lean only. -/
@@ -226,5 +227,18 @@ tolerance, mode)` — the edges' geometries in insertion order, the first except
 default) -/
 def netSimplify (sqrt : α → α) (big : α) (geoms : List (TrkN α)) (tol : α) (mode : Int) : Except String (List (TrkN α)) :=
   geoms.mapM (fun g => simplifyN sqrt big g tol mode)
+
+/-- `TrackCollection.simplify(tolerance, mode=1)` (core/track_collection.py, as repaired by 039f340): `output = self.copy()` — a
+**new** collection holding `track.copy()`, a deep copy, of every track, attributes (`uid`, `tid`, `base`, feature dict,
+`no_data_value`) included —, then `for i in range(len(output)): output[i] = simplify(output[i], tolerance, mode)` (`verbose` keeps
+its default) and `return output`: the list of the simplified **copies**, in the collection's order; the first exception ends the
+call (nothing is returned; the caller's collection was never written). The default of `mode` is `1`, Douglas–Peucker. A
+collection is the list of its tracks; the model is a function, so the caller's collection and its tracks are untouched by
+construction (the harness compares a full snapshot of every track and of the collection's list before and after the call, and
+checks that no `Track` or `Obs` object of the result is one of the input's). An empty collection comes back empty whatever the
+mode (the dispatcher is never reached). Before 039f340 the body called `output[i].simplify(...)`, a method `Track` does not
+have (`AttributeError` for every non-empty collection), and had no `return`. -/
+def collSimplify (sqrt : α → α) (big : α) (tracks : List (TrkN α)) (tol : α) (mode : Int := 1) : Except String (List (TrkN α)) :=
+  tracks.mapM (fun t => simplifyN sqrt big t tol mode)
 
 end TV.Simplify
